@@ -1410,6 +1410,8 @@ radius_pkt_authenticator_chk(rad_pkt_hdr_p pkt, uint8_t *key, size_t key_len,
 	case RADIUS_PKT_TYPE_ACCESS_REQUEST:
 	case RADIUS_PKT_TYPE_STATUS_SERVER:
 	case RADIUS_PKT_TYPE_STATUS_CLIENT:
+		if (NULL != pkt_req) /* Checked as reply: reply never have request code, nothing authenticate it. */
+			return (EBADMSG);
 		return (0);
 	}
 	if (0 != radius_pkt_authenticator_calc(pkt, key, key_len,
@@ -1457,9 +1459,10 @@ radius_pkt_init(rad_pkt_hdr_p pkt, size_t pkt_buf_size, size_t *pkt_size_ret,
 	/* Init data. */
 	switch (code) {
 	case RADIUS_PKT_TYPE_ACCOUNTING_RESPONSE:
-		if (NULL != authenticator)
-			goto handle_ack;
-		/* Passtrouth. */
+		/* The authenticator = authenticator from request, like other replies. */
+		if (NULL == authenticator)
+			return (EINVAL);
+		goto handle_ack;
 	case RADIUS_PKT_TYPE_ACCOUNTING_REQUEST:
 	case RADIUS_PKT_TYPE_DISCONNECT_REQUEST:
 	case RADIUS_PKT_TYPE_COA_REQUEST:
